@@ -303,16 +303,17 @@ bool qvector_addat(qvector_t *vector, int index, const void *data) {
         return false;
     }
 
+    vector->lock(vector);
+
     //check index
     if (index < 0) {
         index += vector->num;
     }
     if (index > vector->num) {
+        vector->unlock(vector);
         errno = ERANGE;
         return false;
     }
-
-    vector->lock(vector);
 
     //check whether the vector is full
     if (vector->num >= vector->max) {
